@@ -287,6 +287,31 @@ def run(ctx, chk):
         body = ev.data["body"]
         reraises = any(isinstance(n, ast.Raise) for st in body for n in ast.walk(st))
         always = body and isinstance(body[-1], ast.Raise)
+        # can a rejection be raised inside the protected block and be caught by this handler?
+        # rejections are failed asserts (AssertionError), explicit raises, and whatever a repo
+        # function called in the block raises; a handler for one specific built-in exception
+        # around a block that only calls methods of plain containers catches none of them
+        et = ev.data["etype"]
+        tb = ev.data.get("try_body") or []
+        nodes = [n for st_ in tb for n in ast.walk(st_)]
+        broad = et in (None, "Exception", "BaseException", "AssertionError") or "(" in (et or "")
+        raises_own = any(isinstance(n, ast.Raise) and n.exc is not None
+                         and et is not None and et in ast.unparse(n.exc) for n in nodes)
+        repo_call = any(isinstance(n, ast.Call) and (
+            (isinstance(n.func, ast.Attribute) and isinstance(n.func.value, ast.Name)
+             and n.func.value.id in ("self", "cls", "u", "utils"))
+            or (isinstance(n.func, ast.Name) and n.func.id not in dir(__builtins__)
+                and n.func.id not in ("str", "int", "float", "len", "tuple", "list", "set",
+                                      "dict", "repr", "sorted", "range", "enumerate", "zip",
+                                      "isinstance", "type", "min", "max", "sum", "any", "all")))
+            for n in nodes)
+        has_reject = any(isinstance(n, (ast.Assert, ast.Raise)) for n in nodes)
+        can_swallow = repo_call or raises_own or (broad and has_reject)
+        if not can_swallow and not always:
+            chk.ob("C18.not-swallowed", f"except {et} handler cannot catch a rejection (the "
+                   "protected block raises none of its own and calls no validation code)", True,
+                   "", ev.loc)
+            continue
         chk.ob("C18.not-swallowed", f"except {ev.data['etype']} handler re-raises", bool(always),
                "an exception handler around validation code that does not raise would swallow "
                "rejections", ev.loc)
